@@ -448,11 +448,12 @@ func (eng *Engine) inferRenaming(fn *ssa.Function, modes Modes, spec map[string]
 var whereRe = regexp.MustCompile(`([A-Za-z0-9_./-]+\.go:[0-9]+): unresolved name`)
 
 // clauseOwner: the function whose contract contains the clause a contract error points at
-func (eng *Engine) clauseOwner(errText string) *ssa.Function {
+func (eng *Engine) clauseOwners(errText string) []*ssa.Function {
 	m := whereRe.FindStringSubmatch(errText)
 	if m == nil {
 		return nil
 	}
+	var out []*ssa.Function
 	where := m[1]
 	has := func(cs []*Clause) bool {
 		for _, c := range cs {
@@ -474,11 +475,11 @@ func (eng *Engine) clauseOwner(errText string) *ssa.Function {
 		found = found || has(ct.Uses) || has(ct.Requires) || has(ct.Ensures) || has(ct.Lets) || has(ct.Modifies) || has(ct.Decreases)
 		if found {
 			if fn := eng.fnByKey[key]; fn != nil {
-				return fn
+				out = append(out, fn) // (several packages may have a contract file of the same name)
 			}
 		}
 	}
-	return nil
+	return out
 }
 
 // renameInterface: requires / ensures / modifies / lets / decreases of the contract renamed (a renamed parameter)
